@@ -31,7 +31,7 @@ def shards(tier):
 def required_counters(tier):
     d = {f'monitor:to_mask:{c}:center': 10 for c in gen.MASKABLE + ['CompoundPixelRegion']}
     d.update({f'monitor:to_mask:{c}:subpixels': 10 for c in gen.SIMPLE_PIX})
-    d.update({'judged:mask-pixels': 10000, 'judged:n1-equals-center': 50, 'judged:unsupported-raises': 50, 'judged:invalid-raises': 50, 'history-steps': 50})
+    d.update({'judged:mask-pixels': 10000, 'judged:n1-equals-center': 50, 'judged:unsupported-raises': 50, 'judged:invalid-raises': 50, 'history-steps': 50, 'result-edited-then-requested-again': 50})
     return d
 
 
@@ -111,6 +111,17 @@ def run_case(case, obs):
         m = region.to_mask(mode='center') if n % 2 else region.to_mask()      # default mode is 'center'
     else:
         m = region.to_mask(mode='subpixels', subpixels=n)
+    if case['n'] % 3 == 0 and np.asarray(m.data).size and np.asarray(m.data).flags.writeable:
+        # the returned array belongs to the caller: editing it must not show in a later, equal request
+        np.asarray(m.data)[...] = 0.375
+        twin = S.build(case['region'])
+        obs.count('result-edited-then-requested-again')
+        if mode == 'center':
+            twin.to_mask(mode='center')          # judged by the monitor
+            region.to_mask(mode='center')
+        else:
+            twin.to_mask(mode='subpixels', subpixels=n)
+            region.to_mask(mode='subpixels', subpixels=n)
     if case.get('history'):
         import random
         prng = random.Random(case['history'])
